@@ -48,6 +48,8 @@ type kase struct {
 	Ch   []int    `json:"choices"`             // explorer choice sequence (random k-pick, map iteration start positions)
 	IDv  []string `json:"id_values,omitempty"` // informational
 
+	M string `json:"message_hex,omitempty"` // sweep: the message
+
 	minDev int // executions with fewer deviations repeat an earlier phase and are not counted again
 }
 
@@ -686,6 +688,81 @@ func reuseRun(g *group, mi int) result {
 	return result{outcome: "reuse:all-equal", obs: fmt.Sprint(steps)}
 }
 
+var sweepWidths = []int{32, 1, 8, 33, 64}
+
+// counterMsg: i as a big-endian string of `width` bytes.
+func counterMsg(i, width int) []byte {
+	b := make([]byte, width)
+	v := uint64(i)
+	for p := width - 1; p >= 0 && v > 0; p-- {
+		b[p] = byte(v)
+		v >>= 8
+	}
+	return b
+}
+
+// sweepRun: the full property for one message: every share verifies under its member's public
+// share, every k-subset (direct recovery and every rotation of arrival at round1's collector) gives
+// Sign(sum of dealer secrets, m), and that verifies under the group key.
+func sweepRun(g *group, m []byte) result {
+	var r result
+	p, v, site := fw.Try(func() {
+		gsk := *groupsig.NewSeckeyFromBigInt(new(big.Int).Set(g.gskWant))
+		want := groupsig.Sign(gsk, m).Serialize()
+		shares := make([][]byte, g.n)
+		for i := 0; i < g.n; i++ {
+			shares[i] = groupsig.Sign(g.signSk[i], m).Serialize()
+		}
+		for i := 0; i < g.n; i++ {
+			if !groupsig.VerifySig(g.memPub[i], m, *groupsig.DeserializeSign(shares[i])) {
+				r = result{bad: true, sig: "C13:sweep:share-verify", obs: fmt.Sprint("share ", i),
+					msg: fmt.Sprintf("message %x (n=%d): member %d's share %x does not verify under its public share", m, g.n, i, shares[i])}
+				return
+			}
+		}
+		for _, sub := range combos(g.n, g.k) {
+			mp := map[string]groupsig.Signature{}
+			for _, j := range sub {
+				mp[g.keys[j]] = *groupsig.DeserializeSign(shares[j])
+			}
+			var got []byte
+			if s := groupsig.RecoverGroupSignature(mp, g.k); s != nil {
+				got = s.Serialize()
+			}
+			if !bytes.Equal(got, want) {
+				r = result{bad: true, sig: "C13:sweep:subset-dependent", obs: fmt.Sprintf("%v %x", sub, got),
+					msg: fmt.Sprintf("message %x (n=%d): RecoverGroupSignature(members %v) = %x, Sign(sum of dealer secrets, m) = %x", m, g.n, sub, got, want)}
+				return
+			}
+			for rot := 0; rot < g.k; rot++ {
+				gen := logical.VerifNewSignGenerator(g.k)
+				var ord []int
+				for t := 0; t < g.k; t++ {
+					j := sub[(t+rot)%g.k]
+					ord = append(ord, j)
+					gen.AddWitnessSign(g.ids[j], *groupsig.DeserializeSign(shares[j]))
+				}
+				s := gen.GetGroupSign()
+				if got := s.Serialize(); !bytes.Equal(got, want) {
+					r = result{bad: true, sig: "C13:sweep:subset-dependent", obs: fmt.Sprintf("%v %x", ord, got),
+						msg: fmt.Sprintf("message %x (n=%d): round1 collector, shares of members %v in arrival order gave %x, Sign(sum of dealer secrets, m) = %x", m, g.n, ord, got, want)}
+					return
+				}
+			}
+		}
+		if !groupsig.VerifySig(g.gpk, m, *groupsig.DeserializeSign(want)) {
+			r = result{bad: true, sig: "C13:sweep:group-verify", obs: "false",
+				msg: fmt.Sprintf("message %x (n=%d): the common recovered signature %x does not verify under the group key", m, g.n, want)}
+			return
+		}
+		r = result{outcome: "sweep:holds", obs: "ok"}
+	})
+	if p {
+		return result{bad: true, sig: "C13:panic:" + site, msg: fmt.Sprintf("panic in message sweep, message %x: %v", m, v), obs: "panic:" + site}
+	}
+	return r
+}
+
 func shareVerifyRun(g *group, mi, i int) result {
 	var ok bool
 	p, v, site := fw.Try(func() {
@@ -733,6 +810,12 @@ func execCase(g *group, k *kase, ch *fw.Chooser) result {
 		return genRun(g, k.Part, k.Msg, k.Ord, ch)
 	case "reuse":
 		return reuseRun(g, k.Msg)
+	case "sweep":
+		m, err := hex.DecodeString(k.M)
+		if err != nil {
+			panic(err)
+		}
+		return sweepRun(g, m)
 	case "share-verify":
 		return shareVerifyRun(g, k.Msg, k.Mem)
 	case "group-verify":
@@ -836,17 +919,18 @@ type tierParams struct {
 	supRev   bool // supersets also inserted in reverse order
 	genBound func(n int) int
 	msgsFor  func(n, seed int) []int // message indices used for a group
+	sweepN   int                     // message sweep: counters 0..sweepN-1 in every width
 }
 
 func params(thorough bool) tierParams {
 	if thorough {
-		return tierParams{ns: []int{3, 4, 5, 6, 7, 8, 9, 10}, seeds: 2, supBound: 2, supRev: true,
+		return tierParams{ns: []int{3, 4, 5, 6, 7, 8, 9, 10}, seeds: 2, supBound: 2, supRev: true, sweepN: 20000,
 			genBound: func(int) int { return 1 },
 			msgsFor:  func(int, int) []int { return []int{0, 1} }}
 	}
 	// quick: the largest group uses one message per seed set and pins the collectors' map
 	// iteration to the insertion order (their arrival orders are still all enumerated)
-	return tierParams{ns: []int{3, 4, 5, 6, 10}, seeds: 2, supBound: 1, supRev: false,
+	return tierParams{ns: []int{3, 4, 5, 6, 10}, seeds: 2, supBound: 1, supRev: false, sweepN: 600,
 		genBound: func(n int) int {
 			if n >= 8 {
 				return 0
@@ -920,6 +1004,53 @@ func run(c *fw.Ctx) {
 	}
 	cache := map[cfgT]*group{}
 	var groups, geOrder, zeroRes int64
+	getGroup := func(n, seed int, idkind string) *group {
+		g := cache[cfgT{n, seed, idkind}]
+		if g == nil {
+			t0 := cpuMs()
+			g = setup(n, seed, idkind)
+			c.Count("cpu_ms_setup", cpuMs()-t0)
+			cache[cfgT{n, seed, idkind}] = g
+			groups++
+			geOrder += int64(g.geOrder)
+			zeroRes += int64(g.zeroRes)
+			for _, r := range g.setupBad {
+				k := g.kase("dkg", 0)
+				k.Ord = idrev(n)[0]
+				c.Outcome("VIOLATION " + r.sig)
+				c.Violation(r.sig, "dkg", r.msg, k)
+			}
+		}
+		return g
+	}
+
+	// --- S. message sweep: the whole property for two small groups over many messages
+	{
+		sg := []*group{getGroup(3, 0, "hash"), getGroup(4, 0, "big")}
+		t0 := cpuMs()
+		var nmsg int64
+		for i := 0; i < tp.sweepN; i++ {
+			for fi, width := range sweepWidths {
+				if width == 1 && i >= 256 {
+					continue // the 1-byte form has only 256 values
+				}
+				if !mine() || expired() {
+					continue
+				}
+				g := sg[(i+fi)%2]
+				if !g.ready() {
+					continue
+				}
+				ks := g.kase("sweep", 0)
+				ks.M = hex.EncodeToString(counterMsg(i, width))
+				record(c, g, ks, nil, execCase(g, &ks, nil))
+				nmsg++
+			}
+		}
+		c.Count("cpu_ms_sweep", cpuMs()-t0)
+		c.Count("sweep_messages", nmsg)
+		c.Note("sweep", fmt.Sprintf("counters 0..%d as big-endian strings of %v bytes (1-byte form: 0..255), alternating between the n=3/k=2 (hash ids) and n=4/k=3 (big ids incl. id==order) groups", tp.sweepN-1, sweepWidths))
+	}
 	phases := 1
 	if tp.supBound > 1 || tp.supRev {
 		phases = 2
@@ -933,22 +1064,7 @@ func run(c *fw.Ctx) {
 					if expired() {
 						break
 					}
-					g := cache[cfgT{n, seed, idkind}]
-					if g == nil {
-						t0 := cpuMs()
-						g = setup(n, seed, idkind)
-						c.Count("cpu_ms_setup", cpuMs()-t0)
-						cache[cfgT{n, seed, idkind}] = g
-						groups++
-						geOrder += int64(g.geOrder)
-						zeroRes += int64(g.zeroRes)
-						for _, r := range g.setupBad {
-							k := g.kase("dkg", 0)
-							k.Ord = idrev(n)[0]
-							c.Outcome("VIOLATION " + r.sig)
-							c.Violation(r.sig, "dkg", r.msg, k)
-						}
-					}
+					g := getGroup(n, seed, idkind)
 					if !g.ready() {
 						continue
 					}
@@ -1128,7 +1244,8 @@ func main() {
 		ID: "C13", Level: "exploration",
 		Rule: "one case = (group built by the node's own DKG: size n, dealer seed set, member-id family) x message x path " +
 			"(dkg arrival order per member | share pairing check | RecoverGroupSignature on a map of s>=k shares | model.GroupSignGenerator | round1 groupSignGenerator | " +
-			"one set of share objects reused over consecutive recoveries of every k-subset, its supersets and both collectors, then re-verified) " +
+			"one set of share objects reused over consecutive recoveries of every k-subset, its supersets and both collectors, then re-verified | " +
+			"message sweep: the whole property for a fixed small group and one counter message) " +
 			"x ordered member subset x explorer choice sequence (which k iteration positions the random selection keeps, start slot of every map iteration). " +
 			"Start slots beyond the occupied ones of a one-bucket map are not enumerated (same order), so counted cases differ in input or in iteration order; " +
 			"every counted case combines >= 2 shares/pieces, its result was compared byte-wise with the subset-independent expectation and the share objects handed in were required to be unchanged",
